@@ -86,7 +86,7 @@ def write_replay(prop, clause, case, viol, seed, tier, sub="", note=None):
     d = os.path.join(ROOT, "replays", sub) if sub else os.path.join(ROOT, "replays")
     os.makedirs(d, exist_ok=True)
     h = core.case_hash([clause, case])[:12]
-    path = os.path.join(d, "%s-%s-%s-%s.json" % (prop, clause, viol["kind"].replace("/", "_")[:40], h))
+    path = os.path.join(d, "%s-%s-%s-%s.json" % (prop, clause, __import__("re").sub(r"[^A-Za-z0-9_.-]", "_", viol["kind"])[:48], h))
     with open(path, "w") as f:
         json.dump({"property": prop, "clause": clause, "case": core.jsonable(case), "violations": [viol],
                    "seed": seed, "tier": tier, "kawin_rev": kawin_rev(), "note": note}, f, indent=1, sort_keys=True)
